@@ -283,6 +283,17 @@ Theorem C20_registry_bracket_iff :
 Proof. exact registry_bracket_iff. Qed.
 Print Assumptions C20_registry_bracket_iff.
 
+(* go_valid_registry answers "rejected" at once when the registry contains '?', '/' or '@'; that is
+   sound: it equals the step-by-step rendering of url.ParseRequestURI (query cut at the first '?',
+   authority up to the first '/', user-info before the last '@', Host compared with the registry),
+   whatever the user-info and path checks it leaves abstract answer *)
+Theorem C20_registry_shortcuts_sound :
+  forall (ip6_ok : str -> bool) (other_ok : str -> option str -> bool) reg,
+    (forall a, contains 64 a = false -> other_ok a None = true) ->
+    go_valid_registry_faithful ip6_ok other_ok reg = go_valid_registry ip6_ok reg.
+Proof. exact go_valid_registry_faithful_eq. Qed.
+Print Assumptions C20_registry_shortcuts_sound.
+
 (* the URL clauses with the modelled validator: no hypothesis about the registry left *)
 Theorem C20_url_exact_go :
   forall (avail ip6_ok : str -> bool) plain s r,
